@@ -1,0 +1,17 @@
+//go:build verif
+
+// Verification hook for configuration contexts (build tag `verif` only;
+// add-only, no behaviour of the normal build depends on this file).
+
+package caddy
+
+// VerifCancelConfig cancels the context ProvisionContext created for cfg
+// (the cancel function is kept in the unexported Config.cancelFunc and is
+// otherwise only called when the next config is loaded): modules are cleaned
+// up and everything bound to the context - e.g. asynchronous certificate
+// management - stops.
+func VerifCancelConfig(cfg *Config) {
+	if cfg != nil && cfg.cancelFunc != nil {
+		cfg.cancelFunc()
+	}
+}
